@@ -156,6 +156,30 @@ def check(ctx, clean, dirty, replay):
         ctx.disagreement("C19.model.prune", "Lean prune and the implementation differ", replay)
     if sk_dead(sk):
         return True
+    # a second prune after edits *below* the top level: dead branches placed into surviving nested solvers (nothing is added
+    # to the top solver itself) must go as well, and nothing else may change
+    import random as _random
+    rr = _random.Random(repr(sk))
+    survivors = {}
+    walk(sol, survivors)
+    nested = [s for s in survivors.values() if s is not sol]
+    if nested:
+        targets = [s for s in nested if rr.random() < 0.5] or nested[:1]
+        try:
+            for s in targets:
+                for _ in range(rr.randint(1, 2)):
+                    dead = hier.build(dead_solver(rr, 1)) if rr.random() < 0.4 else L.Model()
+                    s.add_structure(L.Structure(solver=dead) if isinstance(dead, L.Solver) else L.Structure(model=dead))
+            ret2 = sol.prune()
+        except Exception as e:  # noqa
+            ctx.violation(f"C19:prune-raised-{type(e).__name__}", f"second prune() after nested edits raised {type(e).__name__}: {str(e)[:70]}", replay)
+            return False
+        ctx.tag("second-prune-after-nested-edit")
+        got2 = real_skeleton(sol)
+        if got2 != exp or bool(ret2):
+            ctx.violation("C19:wrong-survivors-second-prune", f"after adding dead branches to nested solvers and pruning again the hierarchy is {got2}, "
+                          f"expected {exp} (returned {ret2})", replay)
+            return False
     # wiring and exposure of the survivors are intact: the pruned solver solves like the clean build
     flat = hier.flatten_desc(clean)
     names = cs.exposed_names(flat)
